@@ -1455,6 +1455,19 @@ impl Scenario for C07 {
         )
     }
 
+    fn vacuous(&self, totals: &Counters) -> Option<String> {
+        if totals.get("client_steps_completed") == 0 {
+            return Some("client level: no Client::step() ever completed, not even on an intact reply".into());
+        }
+        if totals.get("client_second_steps_failed_as_they_must") == 0 {
+            return Some("client level: the wait between two steps was never exercised".into());
+        }
+        if totals.get("fault_client_one_pdu_in_other_supported_version") == 0 {
+            return Some("client level: no reply with one PDU in another version was ever tried".into());
+        }
+        None
+    }
+
     fn assumptions(&self) -> Vec<&'static str> {
         vec![
             "the independent codec and the reader reference model in c07.rs transcribe the RFC layouts correctly",
